@@ -76,10 +76,10 @@ class PC(GL_book_model):
             # NOTE:
             # Initial conditions are only partial; there may be issues with some
             # variables.
-            self.Model.AddInitialCondition('HH', 'AfterTax', 86.486)
-            self.Model.AddInitialCondition('HH', 'F', 86.486)
-            self.Model.AddInitialCondition('TRE', 'F', -86.486)
-            self.Model.AddInitialCondition('HH', 'DEM_DEP', 64.865)
+            hh.AddInitialCondition('AfterTax', 86.486)
+            hh.AddInitialCondition('F', 86.486)
+            tre.AddInitialCondition('F', -86.486)
+            hh.AddInitialCondition('DEM_DEP', 64.865)
             self.Model.AddGlobalEquation('t', 'decorated time axis', '1950. + k')
         return self.Model
 
